@@ -42,7 +42,27 @@ type acCase struct {
 	via      int // 0 gRPC, 1 HTTP proto, 2 HTTP JSON, 3 HTTP proto+zstd
 }
 
-var instances = []string{"", "main", "a/b", "x/ac/y", "cas", "ünï/cödé", "blobs/z"}
+// Long names that agree in a long prefix (63, 64, 65, 128 bytes) or suffix: a
+// key derivation that looks at a bounded part of the name confuses them.
+const longPrefix = "projects/acme-build-infra/locations/europe-west4/instances/defau" // 64 bytes
+
+var instances = []string{"", "main", "a/b", "x/ac/y", "cas", "ünï/cödé", "blobs/z",
+	longPrefix, longPrefix + "a", longPrefix + "b", longPrefix[:63], longPrefix + longPrefix + "x", longPrefix + longPrefix + "y",
+	"a/" + longPrefix, "b/" + longPrefix}
+
+// near returns the names that share a long prefix or suffix with name.
+func near(name string) []string {
+	var out []string
+	if len(name) < 60 {
+		return nil
+	}
+	for _, o := range instances {
+		if o != name && len(o) >= 60 && (o[:60] == name[:60] || o[len(o)-60:] == name[len(name)-60:]) {
+			out = append(out, o)
+		}
+	}
+	return out
+}
 
 func wellFormedDigest(d *pb.Digest) bool {
 	if d == nil {
@@ -455,6 +475,9 @@ func acScen(c *Ctx) {
 			// C15: instance separation
 			if cs.instance != "" || cfg.Mangle {
 				other := instances[(indexOf(instances, cs.instance)+1+r.Intn(len(instances)-1))%len(instances)]
+				if nb := near(cs.instance); len(nb) > 0 && r.Chance(2, 3) {
+					other = nb[r.Intn(len(nb))]
+				}
 				or, og := cl.GetAR(other, cs.key, world.InlineReq{})
 				op := "/ac/" + cs.key
 				if other != "" {
